@@ -40,13 +40,14 @@ class Loc:
 
 
 class Obj:
-    __slots__ = ('mem', 'forced', 'unknown', 'mem_stage')
+    __slots__ = ('mem', 'forced', 'unknown', 'ref_invalid', 'locid')
 
     def __init__(self):
         self.mem = False
         self.forced = False
         self.unknown = False       # in-memory state unknown (after a disk error inside the process)
-        self.mem_stage = None
+        self.ref_invalid = False   # holds a reference value (directory path / lazy reader) whose storage was deleted through another object
+        self.locid = None
 
 
 class Judge:
@@ -92,7 +93,7 @@ class Judge:
         for o in obs:
             by_i[o['i']] = o
         for pi, proc in enumerate(self.scn['procs']):
-            self.proc = {'chains': {}, 'objs': {}, 'faults': {}, 'multis': {}, 'dead': False, 'store': proc.get('store_dir', 'store'),
+            self.proc = {'chains': {}, 'objs': {}, 'faults': {}, 'multis': {}, 'dead': False,
                          'index': pi, 'logger_dirty': set()}
             for op in proc['ops']:
                 o = by_i.get(op['i'])
@@ -116,7 +117,7 @@ class Judge:
     def _register_chain(self, op, o, cid, root, render, tasks, pmode, registry):
         outer = render.get('outer_ns')
         insts = self.model(root, outer)
-        chain = {'root': root, 'outer': outer, 'insts': insts, 'tok': {}, 'pmode': pmode, 'store': self.proc['store'],
+        chain = {'root': root, 'outer': outer, 'insts': insts, 'tok': {}, 'pmode': pmode, 'store': op.get('store', 'main'),
                  'registry': registry, 'cfgname': {ci: c['name'] + render.get('name_suffix', '') for ci, c in enumerate(self.world['configs'])}}
         if set(tasks) != set(insts):
             self.disc('C01', 'I-tasks', op['i'], 'chain task set differs from the configuration\'s',
@@ -128,6 +129,7 @@ class Judge:
             chain.setdefault('keys', {})[name] = d.get('key')
             chain.setdefault('in_toks', {})[name] = [t for t in (d.get('inputs') or {}).values() if t is not None]
             ob = self.proc['objs'].setdefault(d['obj'], Obj())
+            ob.locid = (chain['store'], it.D if pmode else f'name:{it.slug}:{chain["cfgname"][it.cfg]}')
             if d.get('forced') != ob.forced:
                 self.disc('C07', 'I-forced', op['i'], f'is_forced of {name} right after construction', got=d.get('forced'), expected=ob.forced)
             if 'key' not in d:
@@ -333,19 +335,30 @@ class Judge:
                 problems.append(['parameters', sorted((got.get('parameters') or {}).keys()), sorted(exp_params)])
             else:
                 for p in it.cspec['params']:
-                    er = _frozen_repr(lr['params_at_run'].get(p['name'], None)) if p['name'] in lr['params_at_run'] else None
+                    if p.get('ignore'):
+                        continue       # ignored parameters may differ between chains that share the stored result
+                    pv = lr['params_at_run'].get(p['name'], None)
+                    er = _frozen_repr(pv) if p['name'] in lr['params_at_run'] and _plain(pv) and not p.get('placeholder') and not p.get('dtype') else None
                     if er is not None and got['parameters'][p['name']] != er:
                         problems.append(['parameters.' + p['name'], got['parameters'][p['name']], er])
-            if chain['pmode']:
+            if chain['pmode'] and lr['input_keys'] is not None:
                 gi = got.get('input_tasks')
-                ei = lr['input_keys']
-                if gi != ei:
-                    problems.append(['input_tasks', gi, ei])
+                gi2 = sorted([_slug_of(n), k] for n, k in gi.items()) if isinstance(gi, dict) else gi
+                if gi2 != lr['input_keys']:
+                    problems.append(['input_tasks', gi, lr['input_keys']])
             cfg = got.get('config') or {}
-            if cfg.get('namespace') != lr['namespace']:
-                problems.append(['config.namespace', cfg.get('namespace'), lr['namespace']])
-            if lr.get('started_str') is not None and got.get('started') != lr['started_str']:
-                problems.append(['started', got.get('started'), lr['started_str']])
+            ns_ok = {i2.ns for m in self.models.values() for i2 in m.values() if (i2.slug, i2.D) == lr['slugD']}
+            if cfg.get('namespace') not in ns_ok:
+                problems.append(['config.namespace', cfg.get('namespace'), sorted(map(str, ns_ok))])
+            # simulated clock: `started` is a clock reading taken during the request that ran it, before the body began
+            if lr.get('t_body') is not None and lr.get('t_op') is not None:
+                import datetime
+                try:
+                    ts = datetime.datetime.fromisoformat(str(got.get('started'))).timestamp()
+                except Exception:
+                    ts = None
+                if ts is None or not (lr['t_op'] < ts <= lr['t_body']):
+                    problems.append(['started', got.get('started'), [lr['t_op'], lr['t_body']]])
             if problems:
                 self.disc('C18', 'I-records', op['i'], f'{name}: run info does not describe the run that produced the result', problems=problems[:5], run=lr['run'])
 
@@ -365,6 +378,25 @@ class Judge:
                 if loc.state == 'complete':
                     loc.state = 'absent'
                     loc.stage = 0
+                    if it.kind in ('genlazy', 'dir', 'cont'):
+                        # values of these kinds are references into the store; copies held by other task objects die with it
+                        for t2, o2 in self.proc['objs'].items():
+                            if t2 != tok and o2.mem and o2.locid == ob.locid:
+                                o2.ref_invalid = True
+
+    def _force_failed(self, chain, names):
+        """force raised half-way: what it did is unknown - stop predicting for the tasks involved"""
+        for n in names:
+            it = chain['insts'][n]
+            ob = self.proc['objs'][chain['tok'][n]]
+            ob.unknown = True
+            ob.mem = False
+            if it.kind not in PERSIST_NONE:
+                loc = self.loc(chain, it)
+                loc.state = 'indoubt'
+                loc.stage_exact = False
+        for ob in self.proc['objs'].values():
+            ob.unknown = True
 
     def _closure(self, chain, names):
         """named tasks and everything downstream, over task objects (one object = one computation; identical
@@ -403,7 +435,8 @@ class Judge:
             return
         name = op['name'] if 'name' in op else op['task']
         if 'err' in (o.get('res') or {}):
-            self.disc('C07', 'I-force', op['i'], 'Task.force raised', err=o['res']['err'])
+            self.disc('C07', 'I-force', op['i'], 'Task.force raised', err=o['res']['err'], task=name, delete=op.get('delete'))
+            self._force_failed(chain, [name])
             return
         if o['inv']:
             self.disc('C07', 'I-runs', op['i'], 'run executed by Task.force', inv=o['inv'])
@@ -415,7 +448,8 @@ class Judge:
         if chain is None:
             return
         if 'err' in (o.get('res') or {}) and not o.get('crash'):
-            self.disc('C07', 'I-force', op['i'], 'Chain.force raised', err=o['res']['err'])
+            self.disc('C07', 'I-force', op['i'], 'Chain.force raised', err=o['res']['err'], tasks=op.get('names') or op['tasks'], delete=op.get('delete'))
+            self._force_failed(chain, sorted(self._closure(chain, op.get('names') or op['tasks'])))
             return
         names = op.get('names') or op['tasks']
         forced = self._closure(chain, names)
@@ -482,9 +516,6 @@ class Judge:
     def j_ls(self, op, o):
         pass
 
-    def j_swapstore(self, op, o):
-        self.proc['store'] = op['dir']
-
     def j_migrate(self, op, o):
         pass
 
@@ -497,6 +528,14 @@ def _is_work_path(rel):
         if stem.endswith('_tmp') or stem.endswith('_error') or stem.endswith('_old'):
             return True
     return base.endswith('.log') or base.endswith('.run_info.yaml')
+
+
+def _plain(v):
+    if isinstance(v, dict):
+        return 'class' not in v and all(_plain(x) for x in v.values())
+    if isinstance(v, list):
+        return all(_plain(x) for x in v)
+    return True
 
 
 def _frozen_repr(v):
@@ -527,6 +566,8 @@ class Eval:
         self.lenient = lenient
         self.faults = judge.proc['faults']
         self.unknown = False
+        self.skip_value = False
+        self.top = None
 
     def ident(self, name):
         it = self.chain['insts'][name]
@@ -536,6 +577,8 @@ class Eval:
         """-> 'ok' | 'fail'"""
         j = self.j
         chain = self.chain
+        if self.top is None:
+            self.top = name
         it = chain['insts'][name]
         tok = chain['tok'][name]
         ob = j.proc['objs'][tok]
@@ -543,7 +586,10 @@ class Eval:
             self.unknown = True
         if ob.mem:
             j.stats['mem_hits'] += 1
+            if ob.ref_invalid and top_name_is(self, name):
+                self.skip_value = True
             return 'ok'
+        ob.ref_invalid = False
         persisted = it.kind not in PERSIST_NONE
         loc = j.loc(chain, it) if persisted else None
         if persisted and not ob.forced:
@@ -652,9 +698,10 @@ class Eval:
                 'log': [f'marker {runid} begin'] + [f'marker {runid} step {k}' for k in range(nlog)],
                 'records': [{'marker': runid, 'n': 0}] + [{'marker': runid, 'n': k + 1} for k in range(nlog)],
                 'params_at_run': dict(it.all_params),
-                'input_keys': None,
-                'namespace': None,
-                'started_str': str(datetime.datetime.fromtimestamp(rec['started'])) if rec.get('started') else None,
+                'input_keys': sorted([t.slug, self.j.key_of_D.get(t.D)] for t in it.inputs.values()) if chain['pmode'] else None,
+                'slugD': (it.slug, it.D),
+                't_body': rec.get('started'),
+                't_op': (self.o.get('clock') or [None])[0],
             }
         loc.last_run = lr
 
@@ -778,7 +825,7 @@ class Eval:
             return
         got = res.get('ok')
         exp = it.expected
-        if got != exp:
+        if got != exp and not self.skip_value:
             loaded_here = any(n == name for (n, _, _) in self.loads)
             if tainted:
                 prop = 'C05'
@@ -845,6 +892,10 @@ class Eval:
             j.stats['crash_in_error_handler'] += 1
         if len(self.o['inv']) >= 2:
             j.stats['crash_in_nested_run'] += 1
+
+
+def top_name_is(ev, name):
+    return ev.top == name
 
 
 def _slug_of(fullname):
